@@ -225,7 +225,7 @@ pub fn solo_spec(prop: &str) -> Option<SoloSpec> {
             trace: Trace::Light,
             spy: false,
             runs_quick: 120_000,
-            runs_thorough: 5_000_000,
+            runs_thorough: 3_000_000,
             rule: "solo mix and histories incl. unsafe mutators, out-of-range/NaN rates through the pub field, degenerate ranges, long runs (thorough: up to 50000 opcodes), executed in child worker processes on 2 MiB stacks; plus ALL fuzzer scripts of length <= 1 (quick) / <= 2 (thorough) x 6 protocols x 3 configuration passes; non-trivial = the script was exhausted, or the range is degenerate, or the rate is outside [0,1], or unsafe mode; distinct output digests",
             enumerate_short: true,
         },
@@ -293,7 +293,7 @@ pub fn spec_for(prop: &str, tier: Tier) -> Option<SoloSpec> {
     let mut spec = solo_spec(prop)?;
     if tier == Tier::Thorough && prop == "C09" {
         // thorough: a small share of 20000..50000-opcode runs (quadratic cost)
-        spec.profile.huge_bias = 0.0005;
+        spec.profile.huge_bias = 0.0003;
     }
     Some(spec)
 }
